@@ -116,6 +116,10 @@ class OpsGen:
                           "{ sbepp::cursor<char> c; auto g = l.%s(sbepp::cursor_ops::init(c)); std::size_t k = 0; "
                           "vrt::rec_visitor<char> v{-1, nullptr}; v.entry_counters.push_back(0); "
                           "for(const auto e : g.cursor_range(c)) { (void)e; sbepp::visit_children(e, c, v); ++k; } vrt::sink(k); vrt::out().clear(); }" % g.name, "group"))
+            # blind writers: nothing is read from the group's own header first
+            out.append(Op("group-fill-header-blind", path, mem, "{ auto g = %s; sbepp::fill_group_header(g, 0); }" % acc, "group-header"))
+            out.append(Op("group-resize-blind", path, mem, "{ auto g = %s; g.resize(0); }" % acc, "group-header"))
+            out.append(Op("group-clear", path, mem, "{ auto g = %s; g.clear(); }" % acc, "group-header"))
             gplace = "sbepp::cursor<char> c; c.pointer() = sbepp::addressof(%s);" % acc
             out.append(Op("group-cursor-plain", path, mem, "{ %s auto g = l.%s(c); vrt::sink(g.size()); }" % (gplace, g.name), "group-header"))
             out.append(Op("group-cursor-dont_move", path, mem, "{ %s auto g = l.%s(sbepp::cursor_ops::dont_move(c)); vrt::sink(g.size()); }" % (gplace, g.name), "group-header"))
@@ -148,6 +152,14 @@ class OpsGen:
                           "{ auto d = %s; std::vector<unsigned char> b(d.size(), 0x43); d.assign_range(b); }" % acc, "data"))
             out.append(Op("data-assign-count-same", path, mem, "{ auto d = %s; d.assign(d.size(), static_cast<%s>(0x44)); }" % (acc, vt), "data"))
             out.append(Op("data-cursor-init", path, mem, "{ sbepp::cursor<char> c; vrt::sink(l.%s(sbepp::cursor_ops::init(c)).size()); }" % d.name, "data-prefix"))
+            out.append(Op("data-resize-3-blind", path, mem, "{ auto d = %s; d.resize(3); }" % acc, "data-prefix+3"))
+            out.append(Op("data-assign-3-blind", path, mem, "{ auto d = %s; d.assign(3, static_cast<%s>(0x45)); }" % (acc, vt), "data-prefix+3"))
+            out.append(Op("data-assign_range-3-blind", path, mem,
+                          "{ auto d = %s; std::vector<unsigned char> b(3, 0x46); d.assign_range(b); }" % acc, "data-prefix+3"))
+            out.append(Op("data-assign-il-blind", path, mem, "{ auto d = %s; d.assign({static_cast<%s>(1), static_cast<%s>(2), static_cast<%s>(3)}); }"
+                          % (acc, vt, vt, vt), "data-prefix+3"))
+            if m.data_elem_prim(d) == "char":
+                out.append(Op("data-assign_string-blind", path, mem, "{ auto d = %s; d.assign_string(\"abc\"); }" % acc, "data-prefix+3"))
             dplace = "sbepp::cursor<char> c; c.pointer() = sbepp::addressof(%s);" % acc
             out.append(Op("data-cursor-plain", path, mem, "{ %s vrt::sink(l.%s(c).size()); }" % (dplace, d.name), "data"))
             out.append(Op("data-cursor-dont_move", path, mem, "{ %s vrt::sink(vrt::txt(l.%s(sbepp::cursor_ops::dont_move(c)))); }" % (dplace, d.name), "data"))
@@ -350,6 +362,8 @@ def member_extent(m, level, v, start, bl, member, extent_kind):
                 return cur + ps
             if extent_kind == "data+1":
                 return cur + ps + n + 1
+            if extent_kind == "data-prefix+3":
+                return cur + ps + 3
             return cur + ps + n
         cur += ps + n
     return None
